@@ -345,9 +345,11 @@ def main():
     finally:
         if not a.keep: shutil.rmtree(work, ignore_errors=True)
     # ---- verdict
-    exitcode = 0; nviol = 0
+    exitcode = 0; nviol = 0; printed_known = set()
     for r in results:
         for rec in r['known']:
+            if rec['known'] in printed_known: continue
+            printed_known.add(rec['known'])
             k = next(x for x in load_known() if x['id'] == rec['known'])
             print('KNOWN-FINDING: property=%s %s' % (pid, k['what']))
         for rec in r['confirmed']:
